@@ -12,7 +12,7 @@ The type checker of checker/checker.go, clause by clause, over the syntax tree o
   `setTypeForIntegers`), because compiler and optimizer read those annotations.
 * Operator overloading (`conf.OperatorsTable`) is C17's subject and not modelled here: the operators
   table is empty.
-* Error messages are abstracted to classes (`ErrClass`); the harness maps the real messages to the same
+* Error messages are abstracted to classes (`CheckErrClass`); the harness maps the real messages to the same
   classes by their fixed prefixes.
 -/
 namespace ExprModel
@@ -59,10 +59,10 @@ structure CheckCfg where
   strict : Bool
   defaultType : OTy := none
   expect : Expect := .none
-  dn : Defects := .asIs
+  dn : NDefects := .asIs
   dt : TDefects := .asIs
 
-inductive ErrClass where
+inductive CheckErrClass where
   | ambiguousIdent | unknownName | methodValue | unknownOperator | mismatchUnary | mismatchBinary
   | mismatchMatches | noField | badIndex | notIndexable | badSliceIndex | notSliceable
   | unknownFunc | noMethod | noResult | manyResults | tooMany | notEnough | badArgument
@@ -70,7 +70,7 @@ inductive ErrClass where
   | nonBoolCond | expected
   deriving DecidableEq, Repr
 
-def ErrClass.name : ErrClass → String
+def CheckErrClass.name : CheckErrClass → String
   | .ambiguousIdent => "ambiguous-identifier" | .unknownName => "unknown-name"
   | .methodValue => "method-value" | .unknownOperator => "unknown-operator"
   | .mismatchUnary => "mismatch-unary" | .mismatchBinary => "mismatch-binary"
@@ -84,12 +84,12 @@ def ErrClass.name : ErrClass → String
   | .nonBoolCond => "non-bool-cond" | .expected => "expected"
 
 structure CState where
-  err : Option (Loc × ErrClass) := none
+  err : Option (Loc × CheckErrClass) := none
   colls : List OTy := []
   panic : Option String := none
 
 /-- `v.error(node, …)`: record the error unless one is recorded already; the result type is `interface{}` -/
-def CState.fail (st : CState) (loc : Loc) (c : ErrClass) : CState :=
+def CState.fail (st : CState) (loc : Loc) (c : CheckErrClass) : CState :=
   match st.err with
   | none => { st with err := some (loc, c) }
   | some _ => st
@@ -161,12 +161,12 @@ def indexTypeT (t : OTy) : Option OTy :=
     | _ => none
 
 /-- `fieldType` / `methodType` on possibly-nil types -/
-def fieldTypeT (d : Defects) (t : OTy) (name : String) : Option Ty :=
+def fieldTypeT (d : NDefects) (t : OTy) (name : String) : Option Ty :=
   match t with
   | none => none
   | some u => fieldType d (u.depth + 1) u name
 
-def methodTypeT (d : Defects) (t : OTy) (name : String) : Option (Ty × Bool) :=
+def methodTypeT (d : NDefects) (t : OTy) (name : String) : Option (Ty × Bool) :=
   match t with
   | none => none
   | some u => methodType d (u.depth + 1) u name
@@ -596,7 +596,7 @@ end
 /-- outcome of `checker.Check` -/
 inductive CheckResult where
   | ok (n : Node) (t : OTy)
-  | error (loc : Option Loc) (c : ErrClass) (n : Node)
+  | error (loc : Option Loc) (c : CheckErrClass) (n : Node)
   | panic (msg : String)
 
 inductive ExpectFail where
